@@ -4,6 +4,7 @@ from hypothesis import strategies as st
 from ..runner import Check, Violation, Stats
 from ..world import World
 from ..gen import Driver, PROFILES, intents_strategy, script_hash
+from ..known import KnownFindingHit
 
 
 class Observer(object):
@@ -93,6 +94,10 @@ class HistoryCheck(Check):
             try:
                 d.run(intents)
                 obs.finish()
+            except KnownFindingHit as k:
+                # a recorded known finding was hit exactly as recorded: no verdict
+                stats.case(script_hash([cfg, d.script]), False, {"known_%s_hit" % k.fid: 1, "profile_" + cfg.get("profile", self.profile): 1})
+                return
             except Violation as v:
                 v.payload = {"property": self.id, "cfg": cfg, "script": list(d.script)}
                 raise
@@ -114,6 +119,8 @@ class HistoryCheck(Check):
                 for op in script:
                     d.do(op)
                 obs.finish()
+            except KnownFindingHit:
+                return
             except Violation as v:
                 v.payload = {"property": self.id, "cfg": cfg, "script": script}
                 raise
